@@ -46,7 +46,8 @@ def is_store(f, n):
 def rule_pub1(S):
     facts = S.facts()
     S.rule('R-PUB1', 'permutation::{insert_rank, delete_rank, split_dest, rearrange, set_cnk, init}: on every path at '
-                     'most one load of body_ and exactly one store (set_body / body_.store with release order), whose '
+                     'most one load of body_ and exactly one store (set_body / body_.store with release order; none on a path '
+                     'that returns an error status), whose '
                      'argument is a local or a constant: a reader sees the old or the new ordering, never a mixture')
     n = 0
     for name in MUTATORS:
@@ -73,6 +74,11 @@ def rule_pub1(S):
                     rel = cv_through(f, a[1]) in (3, 5)  # memory_order_release / seq_cst
                 return (loads, min(stores + 1, 3), bad or not localv or not rel)
             if nd['k'] == 'ReturnStmt':
+                rc = R.ret_const(f, nd)
+                if stores == 0 and rc is not None and rc.startswith(Y + 'status::') and rc != Y + 'status::OK':
+                    # the mutator refuses (returns an error status) without publishing anything: nothing to see
+                    paths.append(((loads, 1, bad), None))
+                    return None
                 paths.append((st, ctx.witness()))
                 return None
             return st
